@@ -241,6 +241,14 @@ def ciq_specs(quick, seed):
         i += 1
         add(op="dense", n=1, batch=[2], t=2, fam="uniform", kappa=9.0, scale=1.0, call=call, model=True, inverse=True,
             lhs=None, set_nq=None, set_tol=None)
+    # 1-D rhs through op.sqrt_inv_matmul (LinearOperator.sqrt_inv_matmul unsqueezes / squeezes; Diag and Identity have
+    # their own overrides): the result must be 1-D in its last dimension too
+    for op_, batch, lhs_, n_ in [("dense", [], None, 5), ("dense", [], 2, 3), ("dense", [2], None, 3), ("sum", [], 1, 5),
+                                 ("diag", [], None, 5), ("diag", [], 2, 3)]:
+        i += 1
+        fam, kappa, scale = WELL[i % len(WELL)]
+        add(op=op_, n=n_, batch=batch, t=1, fam=fam, kappa=kappa, scale=scale, call="sim", model=True, inverse=True,
+            lhs=lhs_, set_nq=None, set_tol=[None, 1e-10][i % 2], rhs_batch="none", rhs_vec=True)
     # known-finding cells
     add(op="identity", n=5, batch=[], t=2, fam="identity", kappa=1.0, scale=1.0, call="direct", model=True,
         inverse=True, set_nq=None, set_tol=None)
